@@ -160,7 +160,8 @@ class CobaRandom:
         else:
             tot = sum(weights)
             if tot == 0: raise ValueError("The sum of weights cannot be zero.")
-            return next(compress(seq, map((next(self._randu)*tot).__le__, accumulate(weights))))
+            #strictly less so that an item with zero weight is never chosen (the uniform can be exactly 0)
+            return next(compress(seq, map((next(self._randu)*tot).__lt__, accumulate(weights))))
 
     def choicew(self, seq: Sequence[Any], weights:Sequence[float] = None) -> Tuple[Any,float]:
         """Choose a random item from the given sequence.
